@@ -251,6 +251,29 @@ def nbrsValid (inp : Inp) : Bool :=
   (List.range (3 * inp.nBlocks)).all (fun x =>
     (inp.nbrs x).all (fun nb => decide (nb < 3 * inp.nBlocks) && (axisAligned inp nb x).isSome))
 
+/-! ### the schedule as the code builds it
+
+`BlockList.add` → `update_neighbours(new)`: for every earlier block `b'` (in insertion order) `b'.add_neighbour(new)` and
+`new.add_neighbour(b')`; `Block.add_neighbour` loops `this_axis × candidate axis` (`Axis.add_neighbour`: added when the two
+axes share a wire) and `this_wire × candidate wire` over the flat `wire_list` (`Wire.add_coincident`: added when the
+vertex pairs coincide).  Neighbours and coincidents are insertion-ordered sets (repair e8a1b02), so both lists are a
+function of the vertex indexes alone: for a wire / axis of block `b`, the other blocks in ascending order, within a
+block in wire / axis order. -/
+
+def otherBlocks (n b : Nat) : List Nat := (List.range n).filter (fun b' => b' != b)
+def blockWires (b : Nat) : List Nat := (List.range 12).map (fun j => 12 * b + j)
+
+/-- `Wire.coincidents` of wire `w` after all blocks were added -/
+def builtCoinc (inp : Inp) (w : Nat) : List Nat :=
+  (otherBlocks inp.nBlocks (w / 12)).flatMap (fun b' => (blockWires b').filter (fun w' => samePair inp w w'))
+
+/-- `Axis.neighbours` of axis `x` after all blocks were added -/
+def builtNbrs (inp : Inp) (x : Nat) : List Nat :=
+  (otherBlocks inp.nBlocks (x / 3)).flatMap (fun b' => (blockAxes b').filter (fun y => (axisAligned inp y x).isSome))
+
+/-- the input with the schedule the code builds from the vertex indexes -/
+def withBuiltSchedule (inp : Inp) : Inp := { inp with nbrs := builtNbrs inp, coinc := builtCoinc inp }
+
 def init (inp : Inp) : St := { spec := fun _ => [], mch := inp.chops }
 
 /-- `Mesh.grade`: grade_blocks, propagate_gradings, check_consistency -/
@@ -326,8 +349,45 @@ def handleRun (args : List String) : Option String :=
           some s!"ok C[{cs}] S[{ss}] W[{ws}]"
   | _ => none
 
+/-- `c01.sched <n> <verts a,b,..;…>` → `N[nbrs per axis ;-separated] K[coincidents per wire ;-separated]`: the
+    neighbour and coincident lists as `BlockList.add` builds them, in iteration order -/
+def handleSched (args : List String) : Option String :=
+  match args with
+  | [n, verts] => do
+      let n ← n.toNat?
+      let verts ← parseNested verts
+      if verts.length != n then none
+      else
+        let inp : Inp := { nBlocks := n, verts := verts, chops := fun _ => [], nbrs := fun _ => [], coinc := fun _ => [],
+                           ev := fun _ _ _ => 1 }
+        let show1 (l : List Nat) := ",".intercalate (l.map toString)
+        let ns := ";".intercalate ((List.range (3 * n)).map (fun x => show1 (builtNbrs inp x)))
+        let ks := ";".intercalate ((List.range (12 * n)).map (fun w => show1 (builtCoinc inp w)))
+        some s!"N[{ns}] K[{ks}]"
+  | _ => none
+
+/-- `c01.orient <n> <verts> <o: one 0/1 per axis, comma separated>` → `coh 1` when the orientation is coherent
+    (two wires on one vertex pair are aligned iff their axes are oriented alike: the hypothesis of `T_C04_parity`) -/
+def handleOrient (args : List String) : Option String :=
+  match args with
+  | [n, verts, o] => do
+      let n ← n.toNat?
+      let verts ← parseNested verts
+      let ob ← (o.splitOn ",").mapM String.toNat?
+      if verts.length != n || ob.length != 3 * n then none
+      else
+        let inp : Inp := { nBlocks := n, verts := verts, chops := fun _ => [], nbrs := fun _ => [], coinc := fun _ => [],
+                           ev := fun _ _ _ => 1 }
+        let oa := ob.toArray
+        let ok := (List.range (12 * n)).all (fun w => (List.range (12 * n)).all (fun w' =>
+          !samePair inp w w' || (aligned inp w w' == (oa.getD (w / 4) 0 == oa.getD (w' / 4) 0))))
+        some (if ok then "coh 1" else "coh 0")
+  | _ => none
+
 def handle (op : String) (args : List String) : Option String :=
   match op with
+  | "c01.orient" => handleOrient args
+  | "c01.sched" => handleSched args
   | "c01.run" => handleRun args
   | _ => none
 
